@@ -526,14 +526,19 @@ namespace
         return qname(RD);
     }
 
+    // one name for a callee wherever it is reported (call events, initialisers): lambdas by the position of their definition
+    std::string calleeName(const FunctionDecl* FD)
+    {
+        if (isLambdaCallOp(FD))
+            return "lambda@" + locStr(cast<CXXMethodDecl>(FD)->getParent()->getBeginLoc());
+        return qname(FD);
+    }
+
     void describeCallee(const FunctionDecl* FD, json::Object& O)
     {
         if (!FD)
             return;
-        if (isLambdaCallOp(FD))
-            O["callee"] = "lambda@" + locStr(cast<CXXMethodDecl>(FD)->getParent()->getBeginLoc());
-        else
-            O["callee"] = qname(FD);
+        O["callee"] = calleeName(FD);
         O["cid"] = funcId(FD);
         O["cfile"] = fileOf(FD->getLocation());
         if (auto* MD = dyn_cast<CXXMethodDecl>(FD))
@@ -690,13 +695,13 @@ namespace
                                 const Expr* A0 = strip(CE->getArg(0));
                                 if (auto* C2 = dyn_cast<CallExpr>(A0))
                                     if (auto* F2 = C2->getDirectCallee())
-                                        O["icall"] = qname(F2);
+                                        O["icall"] = calleeName(F2);
                             }
                         }
                         else if (auto* CE2 = dyn_cast<CallExpr>(SI))
                         {
                             if (auto* F2 = CE2->getDirectCallee())
-                                O["icall"] = qname(F2);
+                                O["icall"] = calleeName(F2);
                         }
                         if (auto* L = asLambda(I))
                             O["lam"] = lambdaId(L);
